@@ -18,14 +18,16 @@ THEOREMS = ['Fsic.C16.' + n for n in [
     'no_backtick_identity', 'resolve_index_label', 'bound_positional', 'resolve_labels_spec',
     'resolve_labels_spec_step', 'mixed_slice_positional_start', 'mixed_slice_positional_stop',
     'builtin_spans_python_int',
-    'missing_label_keyerror', 'namespace_precedence', 'eval_no_mutation']]
+    'missing_label_keyerror', 'namespace_precedence', 'eval_no_mutation', 'undefined_name_attributeError']]
 RULE = ('helpers: every length n in 0..6 x value patterns (distinct floats, NaN/inf/-0.0, positive, ints) x every '
         'p, d in [-n-1, n+1] (and the default) x fills {default NaN, 0.0, -1.5, int 7, NaN; ints for int arrays} x '
         '{lag, lead, diff, dlog} - exhaustive, seed-independent. eval: (1) every bracket text over a 10-character '
         'alphabet up to length 5 (quick) / 6 (thorough) through the index rewriting on a list span; (2) random '
         'expressions over variables, helpers, positional indexes/slices, backticked label indexes/slices, spellings '
         'with blanks, missing labels, undefined names, over 13 span types; (3) every combination of helper / '
-        'variable / caller-local bindings of a name. distinct = distinct (function, array, shift, fill) or distinct '
+        'variable / caller-local bindings of a name; (4) undefined names at edit distance 1-2 from, and far from, the '
+        'variables of containers that are empty, single-variable, have names differing only by case, names that are '
+        'prefixes of each other, names equal to helper names. distinct = distinct (function, array, shift, fill) or distinct '
         '(span type, length, expression); non-trivial = the call returns a value')
 TRUSTED = ['NumPy float64 subtraction is IEEE-754 (mirrored by Lean Float in the driver instance); np.log is an input '
            'to the dlog model (the harness sends NumPy\'s own log values)',
@@ -630,6 +632,92 @@ def check_errors(ctx, rep):
             model_vs_impl_eval(case, c, reply, outcome, rep)
 
 
+# ---- undefined names: every container shape x names near to and far from its variables -----------------------------------
+
+NAME_SETS = [
+    [], ['X'], ['GDP', 'gdp'], ['C', 'c', 'Y'], ['X', 'x', 'Xx', 'xX'], ['Y', 'YD', 'YDX'], ['lag', 'log', 'X'],
+    ['Cons', 'cons', 'CONS', 'Inv'], ['a', 'A', 'aa', 'AA', 'b'],
+]
+FAR_NAMES = ['Qzzz', 'totally_unrelated_9', 'W']
+
+
+def _reserved():
+    import builtins as pyb, keyword
+    import fsic.core.containers as cc
+    return set(dir(pyb)) | set(keyword.kwlist) | set(vars(cc).keys()) | set(F.builtins.keys())
+
+
+def near_names(names):
+    """Identifiers at edit distance 1-2 from the variable names (and from their case variants)."""
+    out = []
+    for n in names:
+        cands = [n + '_', '_' + n, n + n[-1], n[:-1], n.swapcase(), n.capitalize(), n.lower() + '_', n.upper() + '1',
+                 n[0] + 'q' + n[1:], n + 'x']
+        for c in cands:
+            if c and c not in out:
+                out.append(c)
+    return out
+
+
+def undefined_cases():
+    reserved = _reserved()
+    for names in NAME_SETS:
+        for u in near_names(names) + FAR_NAMES:
+            if not u.isidentifier() or u in reserved or u in names:
+                continue
+            templates = ['{u}', '{u} + 1', 'lag({u})']
+            if names:
+                templates.append(names[0] + ' * {u}')
+            for t in templates:
+                yield {'kind': 'eval-undefined', 'names': names, 'name': u, 'expr': t.format(u=u)}
+
+
+def undefined_run(case):
+    c = VectorContainer(range(2000, 2004))
+    for i, nm in enumerate(case['names']):
+        c.add_variable(nm, [float(i + 1)] * 4)
+    before, bbefore = state_of(c), builtins_state()
+    tag, got = run_eval(c, case['expr'])
+    changed = state_of(c) != before or builtins_state() != bbefore
+    return c, tag, got, changed
+
+
+def undefined_oracle(case, tag, got, changed, rep):
+    """'an undefined name is reported as AttributeError naming it' - for every container and every undefined name."""
+    if not (tag == 'exc' and isinstance(got, AttributeError) and case['name'] in str(got)):
+        bc.violate(rep, 'eval-undefined-name',
+                   f'container with variables {case["names"]}: eval({case["expr"]!r}) should raise AttributeError naming '
+                   f'{case["name"]!r}; got {tag}: {type(got).__name__ if tag == "exc" else ""} {got!r}'[:400], case)
+    if changed:
+        bc.violate(rep, 'eval-mutates-on-error', 'container or fsic.functions.builtins changed by a failing eval()', case)
+
+
+def check_undefined(ctx, rep):
+    reqs, held = [], []
+    for case in undefined_cases():
+        c, tag, got, changed = undefined_run(case)
+        undefined_oracle(case, tag, got, changed, rep)
+        rep.case(('undefined', tuple(case['names']), case['expr']), nontrivial=False)
+        closest = getattr(c, 'get_closest_match', None)
+        try:
+            sugg = list(closest(case['name'])) if closest is not None else None
+        except Exception:  # noqa: BLE001
+            sugg = None
+        rep.dist['eval:undefined:suggestions=' + ('?' if sugg is None else str(min(len(sugg), 2)) + ('+' if sugg and len(sugg) > 1 else ''))] += 1
+        if sugg is not None and case['expr'] == case['name']:
+            reqs.append(line('evalname', {'helpers': sorted(F.builtins.keys()), 'vars': case['names'], 'locals': None,
+                                          'name': case['name'], 'suggestions': sugg}))
+            held.append((case, tag, got))
+    if reqs and not ctx.oracle_only:
+        for (case, tag, got), reply in zip(held, ctx.drive(reqs)):
+            if tag == 'exc' and isinstance(got, AttributeError) and case['name'] in str(got):
+                impl = 'AttributeError:' + case['name']
+            else:
+                impl = f'{tag}:{type(got).__name__}'
+            if reply != impl:
+                rep.disagree('eval of an undefined name: model != impl', case, reply, impl)
+
+
 # ---- pandas partial-string labels (a year in a quarterly PeriodIndex, a month in a daily DatetimeIndex) -------------------
 
 PARTIAL = [
@@ -776,6 +864,7 @@ def run(ctx, rep):
     for chunk in range(0, n_random, 4000):
         check_eval_cases(ctx, rep, [gen_eval_case(rng) for _ in range(min(4000, n_random - chunk))])
     check_errors(ctx, rep)
+    check_undefined(ctx, rep)
     check_partial(ctx, rep)
     check_ns(ctx, rep)
     rep.exhaustive = False
@@ -817,6 +906,10 @@ def _replay(ctx, rep, case):
                 bc.violate(rep, 'eval-precedence', f'resolved to {who}, expected {want}', case)
         if bchanged:
             bc.violate(rep, 'eval-mutates-helper-table', 'fsic.functions.builtins changed by eval()', case)
+    elif k == 'eval-undefined' and 'names' in case:
+        c, tag, got, changed = undefined_run(case)
+        print('  impl :', tag, repr(got)[:200])
+        undefined_oracle(case, tag, got, changed, rep)
     else:
         rep2 = type(rep)()
         check_errors(ctx, rep2)
